@@ -122,7 +122,8 @@ package mast
 //@ ensures def (= result (and (= (nlinks H0 node) 1) (isNil (LinkAt H0 node 0))))
 
 //@ func (*mastNode).Dirty
-//@ tags C01 C02 C13
+//@ tags C01 C02 C11 C13
+//@ requires unshared [C02 C11] (not (mastNode.shared H node))
 //@ ensures dp [C02 C11 C13] (=> (DirtyPrivate H0) (DirtyPrivate H))
 //@ modifies mastNode.expected mastNode.source
 //@ requires nonnil (> node 0)
@@ -550,6 +551,7 @@ package mast
 //@ requires nn (and (> node 0) (not (= keyLayer 0)))
 //@ ensures healthy [C01] (=> healthy (= err anil))
 //@ ensures fail (=> (isErr err) (not result0))
+//@ loop 1 invariant idx (<= (- 1) rangeindex)
 //@ abstract param:(*mastNode).canGrow.keyLayer (key bf) -> (layer err)
 //@ pure
 //@ ensures lay (=> (= err anil) (= layer (layerOf key bf)))
@@ -592,6 +594,7 @@ package mast
 //@ safe-under healthy
 //@ modifies W G.loads Mast.root Mast.height Mast.growAfterSize Mast.shrinkBelowSize Arr.Any Node.*@fresh mastNode.*@fresh Box.Bytes@fresh
 //@ requires ok (MastCfg H m)
+//@ requires root [T3] (not (isNil (Mast.root H m)))
 //@ ensures healthy [C01] (=> healthy (= err anil))
 //@ ensures dp [C02 C11 C13] (=> (DirtyPrivate H0) (DirtyPrivate H))
 //@ ensures cfg [C01] (=> (= err anil) (MastCfg H m))
@@ -600,3 +603,64 @@ package mast
 //@ ensures root [C13] (=> (= err anil) (and (isPtr (Mast.root H m)) (mastNode.dirty H (a.val (Mast.root H m)))))
 //@ loop 1 invariant shape (and (<= (- 1) rangeindex) (<= 0 start) (<= start (+ rangeindex 1)) (<= start (nkeys H node)) (> node 0) (Shape H node) (= (nlinks H newNode&) (+ (nkeys H newNode&) 1)) (MastCfg H m))
 //@ loop 1 invariant dp [C02 C11 C13] (=> (DirtyPrivate H0) (DirtyPrivate H))
+
+// ---------------------------------------------------------------------------------------
+// Delete
+
+//@ func (*Mast).mergeNodes
+//@ tags C01 C02 C09 C11 C12 C16
+//@ modifies W G.loads Arr.Any@fresh Node.*@fresh mastNode.*@fresh Box.Bytes@fresh
+//@ requires nn (and (> m 0) (< (Mast.branchFactor H m) 1073741824) (>= (Mast.branchFactor H m) 0))
+//@ ensures res [C01 C09] (=> (= err anil) (or (= result0 leftLink) (= result0 rightLink) (and (isPtr result0) (> (a.val result0) W0) (Shape H (a.val result0)))))
+//@ ensures fail (=> (isErr err) (isNil result0))
+//@ ensures dp [C02 C11 C13] (=> (DirtyPrivate H0) (DirtyPrivate H))
+//@ ensures healthy [C01] (=> (and healthy (LinkOK leftLink) (LinkOK rightLink)) (= err anil))
+
+//@ func deleteEntry
+//@ tags C01 C02 C09 C11 C12
+//@ safe-under healthy
+//@ modifies W G.loads Arr.Any Node.* mastNode.* Box.Bytes@fresh
+//@ requires nn (and (> m 0) (> node 0) (not (= (Mast.keyOrder H m) 0)) (< (Mast.branchFactor H m) 1073741824) (>= (Mast.branchFactor H m) 0))
+//@ requires idx [C01] (and (Shape H node) (<= 0 i) (< i (nkeys H node)))
+//@ ensures res [C01 C09] (=> (= err anil) (and (> result0 0) (not (mastNode.shared H result0)) (Shape H result0) (= (nkeys H result0) (- (nkeys H0 node) 1))))
+//@ ensures fail (=> (isErr err) (= result0 0))
+//@ ensures dp [C02 C11 C13] (=> (DirtyPrivate H0) (DirtyPrivate H))
+//@ ensures atomic [C12] (=> (isErr err) (NodesSame H0 H W0))
+
+//@ func findEntry
+//@ tags C01 C12 C16
+//@ uses ord
+//@ modifies W G.loads Box.Any@fresh Box.Int@fresh Box.Bytes@fresh findOptions.path findOptions.currentHeight Arr.S_pathEntry Arr.Any@fresh Node.*@fresh mastNode.*@fresh
+//@ requires ok (and (MastCfg H m) (> options 0) (>= (findOptions.currentHeight H options) (findOptions.targetLayer H options)))
+//@ requires closure [T3] (and (AllOK H) (PathOK H (findOptions.path H options)))
+//@ ensures res [C01] (=> (= err anil) (and (> result0 0) (Shape H result0) (<= 0 result1) (< result1 (nkeys H result0)) (>= (sl.len (findOptions.path H options)) 1)))
+//@ ensures fail (=> (isErr err) (= result0 0))
+//@ ensures dp [C02 C11 C13] (=> (DirtyPrivate H0) (DirtyPrivate H))
+
+//@ func (*Mast).shrink
+//@ tags C01 C02 C04 C11 C12 C13
+//@ safe-under healthy
+//@ modifies W G.loads Mast.root Mast.height Mast.growAfterSize Mast.shrinkBelowSize Arr.Any Node.*@fresh mastNode.*@fresh Box.Bytes@fresh
+//@ requires ok (MastCfg H m)
+//@ ensures dp [C02 C11 C13] (=> (DirtyPrivate H0) (DirtyPrivate H))
+//@ ensures cfg [C01] (=> (= err anil) (MastCfg H m))
+//@ ensures atomic [C12] (=> (isErr err) (MastSame H0 H m))
+//@ ensures dirty [C13] (=> (and (= err anil) (isPtr (Mast.root H m))) (mastNode.dirty H (a.val (Mast.root H m))))
+//@ loop 1 invariant shape (and (<= (- 1) rangeindex) (> node 0) (MastCfg H m))
+//@ loop 1 invariant dp [C02 C11 C13] (=> (DirtyPrivate H0) (DirtyPrivate H))
+
+//@ func (*Mast).Delete
+//@ tags C01 C02 C04 C09 C11 C12 C13 C16
+//@ uses ord
+//@ safe-under healthy
+//@ modifies W G.loads Mast.root Mast.size Mast.height Mast.growAfterSize Mast.shrinkBelowSize Arr.S_pathEntry Arr.Any Node.* mastNode.* Box.Any Box.Int Box.Bytes findOptions.*
+//@ requires ok (MastCfg H m)
+//@ requires closure [T3] (AllOK H)
+//@ requires dirtyprivate [C02 C11 C13] (DirtyPrivate H)
+//@ ensures size [C01] (=> (= err anil) (= (Mast.size H m) (mod (- (Mast.size H0 m) 1) 18446744073709551616)))
+//@ ensures dp [C02 C11 C13] (=> (= err anil) (DirtyPrivate H))
+//@ ensures atomicmast [C12] (=> (isErr err) (MastSame H0 H m))
+//@ ensures atomicnodes [C12] (=> (isErr err) (NodesSame H0 H W0))
+//@ ensures absent [C01] (=> (isNil (Mast.root H0 m)) (and (isErr err) (= H H0)))
+//@ loop 1 invariant cfg (MastCfg H m)
+//@ loop 1 invariant dp [C02 C11 C13] (DirtyPrivate H)
